@@ -1,0 +1,28 @@
+//go:build verif
+
+package history
+
+// verifFileWriteFault, when set, is consulted before each append to the
+// history file with the record length; a non-nil error makes the append
+// write only the first cut bytes and return that error (short write).
+var verifFileWriteFault func(length int) (cut int, err error)
+
+func verifFileFault(length int) (int, error) {
+	if verifFileWriteFault == nil {
+		return 0, nil
+	}
+
+	cut, err := verifFileWriteFault(length)
+	if cut < 0 {
+		cut = 0
+	}
+
+	if cut > length {
+		cut = length
+	}
+
+	return cut, err
+}
+
+// VerifSetFileFault installs the history file write fault hook.
+func VerifSetFileFault(f func(length int) (cut int, err error)) { verifFileWriteFault = f }
